@@ -283,13 +283,22 @@ def step (s : IncVal) (toks : List String) : IncVal × String :=
   | ["clean"] => (s.clean, "ok")
   | _ => (s, "bad-op")
 
-/-- family stateful: the ledger is the set of transactions of the committed blocks. -/
-def stepStateful (l : List TxId) (toks : List String) : List TxId × String :=
+/-- family stateful: `ledger` = transactions of all committed blocks, `cached` = those committed since the ledger
+was last opened, `ok` = the stores are open. -/
+structure StatefulSt where
+  ledger : List TxId := []
+  cached : List TxId := []
+  ok : Bool := true
+
+def stepStateful (s : StatefulSt) (toks : List String) : StatefulSt × String :=
   match toks with
-  | ["ledger"] => ([], "ok")
-  | "commit" :: _ :: txs => (l ++ txs.map Proto.natOf, "ok")
-  | ["check", i] => (l, match statefulCheck l (Proto.natOf i) with | .dup => "dup" | _ => "ok")
-  | _ => (l, "bad-op")
+  | ["ledger"] => ({}, "ok")
+  | "commit" :: _ :: txs => ({ s with ledger := s.ledger ++ txs.map Proto.natOf, cached := s.cached ++ txs.map Proto.natOf }, "ok")
+  | ["reopen"] => ({ s with cached := [], ok := true }, "ok")
+  | ["closestore"] => ({ s with ok := false }, "ok")
+  | ["check", i] =>
+    (s, match statefulCheckE s.cached s.ledger s.ok (Proto.natOf i) with | .dup => "dup" | .ok => "ok" | .unknown => "unknown")
+  | _ => (s, "bad-op")
 
 end IncValDrv
 
@@ -302,5 +311,5 @@ def main (args : List String) : IO Unit :=
   | ["blockdigest"] => Proto.run () DigestDrv.step
   | ["stateroot"] => Proto.run ({} : StateRootDrv.St) StateRootDrv.step
   | ["incval"] => Proto.run ({} : Poly.Model.IncVal.IncVal) IncValDrv.step
-  | ["stateful"] => Proto.run ([] : List Nat) IncValDrv.stepStateful
+  | ["stateful"] => Proto.run ({} : IncValDrv.StatefulSt) IncValDrv.stepStateful
   | _ => IO.eprintln "usage: drv_kv <family>"
